@@ -163,13 +163,14 @@ func runC02(env *core.Env) {
 	if env.Thorough() {
 		run("seq-ring A>B||B>C||C>A", f.SA, 2, core.R("", "--json", "sequence", f.T1, f.T2), core.R("", "--json", "sequence", f.T2, f.T3), core.R("", "--json", "sequence", f.T3, f.T1))
 	}
-	exploreMany(env, st, "C02", jobs, 8)
-	// acknowledged writes under I/O errors (one command at a time, production binary)
+	// acknowledged writes under I/O errors and short writes (one command at a time, production binary); cheap, so first
 	var fcmds []crashCmd
 	for _, a := range alpha {
 		fcmds = append(fcmds, crashCmd{a.Name, a.Mk(f, 0)})
 	}
 	st.PerScenario["io-error-phase"] = faultPhase(env, "C02", f.SA, fcmds)
+	st.PerScenario["short-write-phase"] = shortWritePhase(env, "C02", f.SA, fcmds)
+	exploreMany(env, st, "C02", jobs, 8)
 	finishSched(env, st, "every unordered pair over a 20-command alphabet (new, new with claim, set with 1/3/result fields, claim, claim <id>, sequence, sequence rm, chain, plan, prune, compact, init, reopen, unclaim, ...) plus init/lock-file-missing races and triples, every interleaving of their hooked steps up to the preemption bound (1; 2 on the hot list); oracle: some order of the commands that exited 0, consistent with real time, reproduces replies and final observable state when run one at a time on the real code; log is whole JSON lines; nobody blocks in flock")
 }
 
